@@ -46,7 +46,8 @@ def cases(tier, seed):
     for i in range(nprob):
         ps = gen.rand_spec(rng, FAMS, nmax=7, nmin=2, boxes=("none", "mixed", "boxed", "lower", "narrow"),
                            starts=("interior", "face", "vertex", "outward"), condmax=1e3)
-        yield {"problem": ps, "maxcor": int(rng.integers(1, 7)), "maxls": int(gen.pick(rng, [2, 5, 20])), "K": int(rng.integers(4, 13))}
+        yield {"problem": ps, "maxcor": int(rng.integers(1, 7)), "maxls": int(gen.pick(rng, [2, 5, 20])), "K": int(rng.integers(4, 13)),
+               "scaler": float(np.exp(rng.uniform(np.log(1e-2), np.log(1e2)))) if i % 3 == 0 else None}
 
 
 def relerr(a, b):
@@ -81,6 +82,11 @@ def run(spec):
     P = gen.make_problem(spec["problem"])
     K = spec["K"]
     base = dict(jac="callable", maxcor=spec["maxcor"], maxls=spec["maxls"], ftol=0.0, gtol=1e-12, maxfun=100000)
+    if spec.get("scaler"):
+        # snapshot and maxiter=k run are compared in the same (scaled) units; the recovery restart is made on the explicitly
+        # scaled objective without scaler, which is what the state's values refer to
+        base["scaler"] = spec["scaler"]
+        out.count("problems_with_gradient_scaler")
     tags = dict(family=P.spec["family"])
     keys = set()
     name = f"{P.spec['family']} n={P.n} maxcor={spec['maxcor']} maxls={spec['maxls']}"
@@ -204,7 +210,10 @@ def run(spec):
             # the user's recovery: restart from what they kept
             try:
                 x0 = np.array(st.x, dtype=float, copy=True)
-                rs = probes.run_min(P, dict(base, maxiter=int(st.nit) + 1), checkpoint=st, x0=x0)
+                rbase = dict(base)
+                if rbase.pop("scaler", None) is not None:
+                    rbase["explicit_scale"] = spec["scaler"]
+                rs = probes.run_min(P, dict(rbase, maxiter=int(st.nit) + 1), checkpoint=st, x0=x0)
             except Exception as e:
                 out.violate("restart_from_retained_state_raised", f"{name}: {e!r}", **tags)
                 break
